@@ -13,7 +13,8 @@ the cover row for every edge that is not ignored.
 namespace FP
 open Lean
 
-/-- `edge_upper_bounds`: `number_of_edges * number_of_nodes` of the augmented graph on SCC edges, 1 elsewhere -/
+/-- `edge_upper_bounds`: `number_of_edges * number_of_nodes` of the augmented graph on SCC edges (a natural
+number: the flooring of fix fcfd0b0 changes nothing, `c09k_cap_scc`), 1 elsewhere -/
 def kcovercBounds (s : STGraph) : List (Edge × Rat) :=
   capBounds s.g fun _ => ((s.g.edges.length * s.g.nodes.length : Nat) : Rat)
 
